@@ -112,7 +112,7 @@ func init() {
 
 func TestC16(t *testing.T) {
 	r, e := start(t, "C16",
-		"whole-language programs: the constructs of C01-C03 plus input, read, write, exists, program calls and pipelines (names as identifiers and as string literals, captured or not), copy, empty blocks of every kind, else-if after nested blocks, nesting up to 6, up to 8 functions, imports of strings/os, and programs split over two or three files (a file reached along two import paths, private functions and globals and top-level code in the imported files); scripts are not executed. Oracle: bash -n accepts the Bash script silently; a structural reader of the Batch text (by shape: routines = 'goto :M' + label ... ':M', loops = 'head ... goto head / ) / end', ifs = 'goto X / ) / X') checks balanced parentheses, every goto/call target defined, no label twice, helper routines present exactly when called from elsewhere, and every loop/branch jump inside and innermost. Non-trivial = an empty block, nesting >= 3, or >= 2 helper-requiring builtins; distinct by source text.",
+		"whole-language programs: the constructs of C01-C03 plus input, read, write, exists, program calls and pipelines (names as identifiers and as string literals, captured or not), copy, empty blocks of every kind, else-if after nested blocks, nesting up to 6, up to 8 functions, imports of strings/os, random import graphs of 2-5 files (the generator of C09) and programs split over two or three files (a file reached along two import paths, private functions and globals and top-level code in the imported files); scripts are not executed. Oracle: bash -n accepts the Bash script silently; a structural reader of the Batch text (by shape: routines = 'goto :M' + label ... ':M', loops = 'head ... goto head / ) / end', ifs = 'goto X / ) / X') checks balanced parentheses, every goto/call target defined, no label twice, helper routines present exactly when called from elsewhere, and every loop/branch jump inside and innermost. Non-trivial = an empty block, nesting >= 3, or >= 2 helper-requiring builtins; distinct by source text.",
 		[]string{"Batch text is read structurally, not executed (C05 runs it under a model)", "strings use the neutral alphabet, so quotes in emitted lines delimit data reliably"})
 	defer r.Flush()
 	cfg := gen.Cfg{MaxStmts: 30, MaxDepth: 5, ExprDepth: 3, Funcs: true, MaxFuncs: 6, Slices: true, StrOps: true, Panics: true, LoopBudget: 1000, IO: true, BigSlices: true, ErrSpell: true, BareExpr: true}
@@ -202,6 +202,20 @@ func TestC16(t *testing.T) {
 	r.SetExtra("n_isolation_programs", 0)
 
 	checkRapid(t, r, func(t *rapid.T) {
+		if gen.Uniform(0, 9).Draw(t, "import-graph") == 0 {
+			// a random import graph of 2-5 files whose libraries have private functions, globals and top-level code that
+			// calls functions (every function an emitted call names must survive the removal of unused functions)
+			g := c09BuildGraph(t)
+			files := ts.Sources(g.prog)
+			c := formCase{Kind: "wellformed", Property: "C16", Files: files, Main: "main.tsh"}
+			r.Eval()
+			r.Class("import-graph")
+			r.NonTrivial(mainSource(files, "main.tsh"), nil)
+			if be, rule, msg := checkWellFormed(c); be != "" {
+				r.FailCase(t, rep.Sig{"backend": be, "rule": rule, "shape": "import-graph"}, msg+"\n--- sources\n"+mainSource(files, "main.tsh"), c)
+			}
+			return
+		}
 		if gen.Uniform(0, 4).Draw(t, "multi-file") == 0 {
 			// a program over several files: functions moved into one or two imported files (with two, the second is reached
 			// along two import paths); every file keeps private names and top-level code
